@@ -27,10 +27,26 @@ NEEDS = {
  "C12-1": "cycle nested in another cycle; a write that shrinks an input so values stabilise by the second iteration; older consumer memo; outermost head requested first",
  "C12-2": "conditionally formed nested cycle visited only in a non-final outer iteration and never requested; shrinking write; re-entry through the abandoned head",
  "C13-1": "cycle formed by editing one node's edges while the other members are memoized from an acyclic revision; new revision entered through the edited node, through >= 2 old memos",
+ "C14-1": "cycle error (panic through functions without recovery) in the middle of a fixpoint iteration after a no-recovery participant completed; later revision in which the head no longer calls it and finalizes; participant requested afterwards (same change as C20-2)",
+ "C14-2": "cycle error while a fixpoint function is on the stack; new revision; that function is re-entered as a legitimate cycle head before completing once",
+ "C15-1": "'too many cycle iterations' panic leaves a provisional memo of a nested inner head; later revision re-enters it",
+ "C15-2": "poisoned provisional memo (Durability::MAX) of an earlier revision stamped verified by the durability shortcut before its provisional state is validated",
+ "C16-1": "lru sub-query evicted at the revision boundary, its input changed, two readers validating different dependants; reader 2 blocks on the sub-query while reader 1 holds it inside deep verification",
+ "C16-2": "two different tracked functions store the very first memos of one struct at the same time (lazy per-struct memo table published with a plain store); same change as C17-2",
+ "C17-1": "handle B probes the memo table before handle A inserts the fresh memo and calls try_claim after A released the claim",
+ "C17-2": "same as C16-2",
+ "C19-1": "nested cycles on one thread (locks transferred c -> b -> a), another thread blocked on the innermost query, outermost head unwinds (panic / pending write)",
+ "C19-2": "query nested in a fixpoint query panics while its thread's cancellation token is cancelled (deferred); another thread waits on the nested query",
+ "C20-1": "reader cancelled inside a fixpoint iteration drops its handle before the writer reads the clone count; revision-preserving write (trigger_cancellation / lru capacity / eviction)",
+ "C20-2": "same change as C14-1; reader cancelled by a write during iteration 0 after a participant with higher-durability inputs completed; head acyclic in the new revision and requested first",
+ "C21-1": "cancel() arrives while the handle executes a cycle_result function that then makes another tracked request; a second handle waits on it",
+ "C21-2": "cancel() arrives while the cancelled handle is inside its outermost fixpoint query; the handle then makes a tracked request outside it",
+ "C22-1": "tracked struct re-created in a later revision, panic in a tracked field's PartialEq, same request retried in the same revision",
+ "C22-2": "function re-executes, creates fewer tracked structs than before, and its result's PartialEq panics during backdating; request repeated",
  "C13-2": "two cycle_result cycles sharing a node, entered through the outer one; every member read; a write breaks only the outer cycle; request into the inner cycle",
 }
 res = {}
-order = sorted(glob.glob(os.path.join(R, "seeded/results/*.txt")))
+order = sorted(glob.glob(os.path.join(R, "seeded/results/*.txt")), key=lambda f: [int(x) if x.isdigit() else x for x in re.split(r"(\d+)", os.path.basename(f))])
 for f in order:
     for l in open(f):
         p = l.split()
